@@ -368,9 +368,10 @@ theorem pgsLoop_is_sweep (P : Problem K) (rhs : Array K) (pK tol sorMin sorFac :
     intro its sor prev sw _ hn
     unfold pgsLoop
     simp only
-    split_ifs with hc
-    · exact ⟨sor, sw.pi, hn, rfl⟩
-    · rcases Nat.eq_zero_or_pos fuel with h0 | hpos
+    by_cases hc : sqrt ((sweep sqrt P rhs sor sw.pi).sum2enf / pK) < tol
+    · rw [if_pos hc]; exact ⟨sor, sw.pi, hn, rfl⟩
+    · rw [if_neg hc]
+      rcases Nat.eq_zero_or_pos fuel with h0 | hpos
       · subst h0
         exact ⟨sor, sw.pi, hn, by simp [pgsLoop]⟩
       · exact ih _ _ _ _ hpos (by rw [sweep_size]; exact hn)
@@ -411,10 +412,21 @@ theorem vset_vget_self (v : Array K) (i : Nat) : vset v i (vget v i) = v := by
   apply Array.ext
   · simp [vset]
   · intro j h1 h2
-    simp only [vset, vget, Array.getElem_setIfInBounds]
+    simp only [vset, vget]
+    rw [Array.getElem_setIfInBounds]
     split_ifs with h
     · subst h; simp [Array.getD_eq_getD_getElem?, h2]
     · rfl
+
+omit [LinearOrder K] [IsStrictOrderedRing K] in
+theorem mem_zip_map_self {β : Type} (f : Nat → β) (rows : List Nat) (r : Nat) (h : r ∈ rows) :
+    (r, f r) ∈ rows.zip (rows.map f) := by
+  induction rows with
+  | nil => simp at h
+  | cons a rows ih =>
+    rcases List.mem_cons.mp h with rfl | h'
+    · simp
+    · simp only [List.map_cons, List.zip_cons_cons, List.mem_cons]; exact Or.inr (ih h')
 
 /-- one row update with zero residual leaves `pi` alone; a non-zero residual shows up in the error sum -/
 theorem doUpdates_zero (A : Array (Array K)) (D rhs : Array K) (sor : K) (rows : List Nat) (sums : List K) (pi : Array K)
@@ -429,24 +441,24 @@ theorem doUpdates_zero (A : Array (Array K)) (D rhs : Array K) (sor : K) (rows :
     | nil => simp at hlen
     | cons s sums =>
       simp only [doUpdates]
-      have hsq : (0 : K) ≤ square (vget rhs r - s) := mul_self_nonneg _
-      obtain ⟨m1, m2⟩ := ih sums (doUpdate r A D rhs sor s pi).1 (e + (doUpdate r A D rhs sor s pi).2) (by simpa using hlen)
-      have he2 : (doUpdate r A D rhs sor s pi).2 = square (vget rhs r - s) := rfl
+      set u := doUpdate r A D rhs sor s pi with hu
+      have hu2 : u.2 = square (vget rhs r - s) := rfl
+      have hsq : (0 : K) ≤ u.2 := by rw [hu2]; exact mul_self_nonneg _
+      obtain ⟨m1, m2⟩ := ih sums u.1 (e + u.2) (by simpa using hlen)
       constructor
-      · rw [he2] at m1; linarith
+      · linarith
       · intro hEq
-        rw [he2] at m1 m2 hEq
-        have hz : square (vget rhs r - s) = 0 := by linarith
+        have hz : u.2 = 0 := by linarith
         have her : vget rhs r - s = 0 := by
-          unfold square at hz; exact mul_self_eq_zero.mp hz
-        have hpi : (doUpdate r A D rhs sor s pi).1 = pi := by
-          unfold doUpdate; simp only [her, mul_zero, zero_div, add_zero, vset_vget_self]; split_ifs <;> rfl
+          rw [hu2] at hz; unfold square at hz; exact mul_self_eq_zero.mp hz
+        have hpi : u.1 = pi := by
+          rw [hu]; unfold doUpdate; simp only [her, mul_zero, zero_div, add_zero, vset_vget_self]; split_ifs <;> rfl
         obtain ⟨m3, m4⟩ := m2 (by rw [hEq, hz, add_zero])
         rw [hpi] at m3
-        refine ⟨m3, ?_⟩
+        refine ⟨by rw [hpi]; exact m3, ?_⟩
         intro p hp
         rcases List.mem_cons.mp (by simpa [List.zip_cons_cons] using hp) with h | h
-        · rw [h]; simp only; linarith [sub_eq_zero.mp her]
+        · rw [h]; simp only; exact sub_eq_zero.mp her
         · exact m4 p h
 
 /-- a block update of a group with zero squared error: `pi` is unchanged and every row of the group is satisfied -/
@@ -460,8 +472,7 @@ theorem updateGroup_zero (cols rows : List Nat) (A : Array (Array K)) (D rhs : A
   refine ⟨m3, fun r hr => ?_⟩
   have : (r, doRowSum cols r A D pi) ∈ rows.zip (doRowSums cols rows A D pi) := by
     unfold doRowSums
-    rw [List.zip_map_right]
-    exact List.mem_map.mpr ⟨(r, r), by simpa [List.mem_zip_self] using hr, rfl⟩
+    exact mem_zip_map_self _ rows r hr
   exact (m4 _ this).symm
 
 /-- the unconditional stage: the enforced error sum never decreases, and if it does not increase then `pi` is a fixed
@@ -502,15 +513,61 @@ theorem bilateral_fixed_point (P : Problem K) (rhs : Array K) (sor : K) (pi0 : A
     ((sweep sqrt P rhs sor pi0).sum2enf = 0 →
       (sweep sqrt P rhs sor pi0).pi = pi0 ∧
       ∀ g ∈ P.uncond, ∀ r ∈ g, doRowSum P.participating r P.A P.D pi0 = vget rhs r) := by
-  have e : ∀ (q : St K → K), q (sweep sqrt P rhs sor pi0).toSt' = q (foldStage (stepUncond P.participating P.A P.D rhs sor) P.uncond
-      { pi := pi0, sum2all := 0, sum2enf := 0 }).1 := by
-    intro q; simp [sweep, Sweep.toSt', h1, h2, h3, h4, foldStage]
+  have es : (sweep sqrt P rhs sor pi0).sum2enf = (foldStage (stepUncond P.participating P.A P.D rhs sor) P.uncond
+      { pi := pi0, sum2all := 0, sum2enf := 0 }).1.sum2enf := by
+    simp [sweep, h1, h2, h3, h4, foldStage]
+  have ep : (sweep sqrt P rhs sor pi0).pi = (foldStage (stepUncond P.participating P.A P.D rhs sor) P.uncond
+      { pi := pi0, sum2all := 0, sum2enf := 0 }).1.pi := by
+    simp [sweep, h1, h2, h3, h4, foldStage]
   obtain ⟨z1, z2⟩ := stageUncond_zero P.participating P.A P.D rhs sor P.uncond { pi := pi0, sum2all := 0, sum2enf := 0 }
-  have es := e (fun s => s.sum2enf)
-  have ep := e (fun s => s.pi)
-  simp only [Sweep.toSt'] at es ep
   rw [es, ep]
   exact ⟨z1, fun h => z2 h⟩
 
-end C44
+/-! ## PLUS: soundness of the exact-rational acceptance contract -/
 
+/-- **contract_sound**: whatever `PLUSImpulseSolver::solve` returned, if the exact-rational predicate accepts it then
+(1) no participating unilateral normal impulse pulls by more than the slack, (2) every contact friction impulse is in
+the (slightly inflated) cone, (3) bounded impulses are within their bounds up to the slack, and (4) when only
+unconditional rows are present every participating row of `[A+D]π = rhs` holds up to the slack -/
+theorem plusAccept_sound (P : Problem Rat) (rhs pi : Array Rat) (tol scale : Rat) (chk : Bool)
+    (h : plusAccept P rhs pi tol scale chk = true) :
+    (∀ c ∈ P.uniContact,
+        (c.type = 2 → c.sign * vget pi c.Nk ≤ tol * scale) ∧
+        (c.type ≠ 0 → c.Fk.isEmpty = false →
+          normSq (gather pi c.Fk) ≤ (1 + tol) * (1 + tol) * (c.mu * c.mu) * square (vget pi c.Nk + vget P.piExpand c.Nk)
+            + tol * scale * (tol * scale))) ∧
+    (∀ b ∈ P.bounded, b.lb - tol * scale ≤ vget pi b.ix ∧ vget pi b.ix ≤ b.ub + tol * scale) ∧
+    (chk = true → ∀ r ∈ P.participating,
+        ratAbs (doRowSum P.participating r P.A P.D pi - vget rhs r) ≤ tol * scale) := by
+  unfold plusAccept at h
+  simp only [Bool.and_eq_true, List.all_eq_true, Bool.or_eq_true, decide_eq_true_eq, ne_eq,
+    Bool.not_eq_true'] at h
+  obtain ⟨⟨h1, h2⟩, h3⟩ := h
+  refine ⟨fun c hc => ⟨fun ht => ?_, fun ht hF => ?_⟩, fun b hb => h2 b hb, fun hchk r hr => ?_⟩
+  · rcases (h1 c hc).1 with h | h
+    · exact absurd ht (by simpa using h)
+    · exact h
+  · rcases (h1 c hc).2 with (h | h) | h
+    · exact absurd (by simpa using h) ht
+    · rw [hF] at h; exact absurd h (by simp)
+    · exact h
+  · rcases h3 with h | h
+    · rw [hchk] at h; exact absurd h (by simp)
+    · exact h r hr
+
+/-! ## non-vacuity -/
+
+/-- a concrete well-formed problem: one contact (normal row 0, friction rows 1,2) and one bounded row 3 -/
+example : WellFormed (K := ℚ)
+    { m := 4, A := #[], D := #[], participating := [0, 1, 2, 3], expanding := [], piExpand := #[], verrStart := #[],
+      verrApplied := #[], uncond := [], uniContact := [{ Nk := 0, sign := 1, Fk := [1, 2], type := 2, mu := 1 / 2 }],
+      bounded := [{ ix := 3, lb := -1, ub := 1 }], stateLtd := [], consLtd := [] } 4 := by
+  constructor <;> simp [rowsNormal, readsFriction, rowsFriction, rowsAfterNormals, rowsAfterFriction, rowsAfterBounded,
+    rowsAfterState]
+
+/-- the ball projection on a concrete vector: `(3,4)` scaled to length 2 has squared norm exactly 4
+(with a square-root routine that is right on the one argument it is asked about) -/
+example : normSq (scaleToLimit (fun x : ℚ => if x = 4 / 25 then 2 / 5 else 0) 4 [3, 4]).1 = 4 := by
+  norm_num [scaleToLimit, normSq, square]
+
+end C44
